@@ -1,6 +1,7 @@
 import VgiVerif.Prelude.JsonUtil
 import VgiVerif.Driver.Engine
 import VgiVerif.Model.C30
+import VgiVerif.Model.C30Http
 namespace VgiVerif.C30.Driver
 open Lean VgiVerif.J VgiVerif.Engine VgiVerif.C30
 
@@ -142,7 +143,11 @@ def handle (fn : String) (a : Json) : R Json := do
       | .cont [.ptr _] => true
       | .done [.ptr _] => true
       | _ => false
+    -- the same wire read by the HTTP client (break after every batch; the observation is independent of the breaks)
+    let httpEvents := if exchange then Sem.lg il ++ C30.Http.exchangeAllX R r.2
+      else C30.Http.iterateX R (fun _ => true) il r.2
     pure (obj [("events", Engine.Driver.evs events), ("inline", Engine.Driver.evs inline),
+               ("http_obs", Engine.Driver.obsJson (obs httpEvents)),
                ("uploads", ofNat r.1.length), ("routes", ofList (routes.map ofBool)),
                ("obs", Engine.Driver.obsJson (obs events)), ("obs_inline", Engine.Driver.obsJson (obs inline))])
   | _ => throw s!"unknown function C30.{fn}"
